@@ -1287,7 +1287,16 @@ private:
 
         std::optional<std::filesystem::path> output_path;
         if (const auto out_it = fields.find("OUT"); out_it != fields.end()) {
-            output_path = std::filesystem::absolute(std::filesystem::path(out_it->second));
+            try {
+                output_path = std::filesystem::absolute(std::filesystem::path(out_it->second));
+            } catch (const std::exception&) {
+                // e.g. an empty OUT value: there is no path to resolve
+                auto error = make_error("ERR_FETCH_OUT_INVALID",
+                                        "Invalid OUT destination",
+                                        "Provide a non-empty destination path");
+                respond_error(std::move(error), "destination_invalid");
+                return;
+            }
         }
 
         bool stream_to_client = false;
